@@ -115,6 +115,7 @@ class Report:
             "traces_validated_against_impl": int(self.judged),
             "tlc_runs": self.tlc_runs,
             "known_findings_reobserved": {k: v["count"] for k, v in self.known.items()},
+            "known_finding_examples": {k: json.loads(json.dumps(v["example"], default=str)) for k, v in self.known.items()},
             "spec_drift": self.drift,
         }
         if self.exhaustive is not None:
